@@ -1360,7 +1360,7 @@ def exec_loop(ip, s, env, f):
     if spec is None:
         raise Unsupported(f"loop {ordinal} of {f.qualname} has no invariant")
     if not isinstance(s, ast.While):
-        if spec._exec_for is None and isinstance(s, ast.For):
+        if spec._exec_for is None and isinstance(s, (ast.For, ast.AsyncFor)):
             return exec_for_std(spec, ip, s, env, f, ordinal)
         return spec.exec_for(ip, s, env, f, ordinal)
     tag = f"{f.qualname}/loop{ordinal}"
